@@ -621,6 +621,28 @@ def cases_for(cname, cls, P):
     if not fields:
         return [Case("no-field", mk(0, False))], False
     out = [Case("v0", mk(0, False)), Case("v1", mk(1, True))]
+
+    def falsy(v):
+        # zero / False / '' for the scalar fields: legal but falsy values (truth tests in custom encoders and decoders)
+        if isinstance(v, bool):
+            return False
+        if isinstance(v, (int, float)):
+            return type(v)(0)
+        if isinstance(v, str):
+            return ""
+        return v          # containers stay as generated: whether an empty one is a legal message depends on the class
+
+    def mk_falsy():
+        vals = [falsy(gen_field(f, P, 0)) for f in fields]
+        for k, f in enumerate(fields):
+            if f in unknown:
+                vals[k] = falsy(_rot(P["vals"], 0)[0])
+        return cls(*vals)
+    try:
+        mk_falsy()       # some constructors refuse empty values: then there is no such message to send
+        out.append(Case("falsy-fields", mk_falsy))
+    except Exception:  # noqa
+        pass
     if unknown:
         for c in out:
             c.tags += ("generic-content:%s" % ",".join(unknown),)
